@@ -31,6 +31,23 @@ theorem firstFit_some {L len a b : Nat} (h : firstFit L len a = some b) : a &&& 
 theorem autoLen_pos (m : Nat) : 1 ≤ autoLen m := by unfold autoLen; omega
 theorem lt_two_pow_autoLen (m : Nat) : m < 2 ^ autoLen m := Nat.lt_log2_self
 
+theorem chosenLen_pos_of_none {f : Field} (h : f.length = none) : 1 ≤ f.chosenLen := by
+  unfold Field.chosenLen
+  rw [h]
+  simp only
+  split
+  · have := autoLen_pos f.maxValue; omega
+  · exact autoLen_pos _
+
+/-- whichever of the two admissible automatic lengths is chosen, it covers `max_value` -/
+theorem chosenLen_wide_of_none {f : Field} (h : f.length = none) : f.maxValue < 2 ^ f.chosenLen := by
+  unfold Field.chosenLen
+  rw [h]
+  simp only
+  split
+  · exact Nat.lt_of_lt_of_le (lt_two_pow_autoLen _) (Nat.pow_le_pow_right (by decide) (Nat.le_succ _))
+  · exact lt_two_pow_autoLen _
+
 theorem mem_modifyFirst_of_mem {p : Entry → Bool} {f : Field → Field} {es : List Entry} {x : Entry} (h : x ∈ es) :
     ∃ x' ∈ modifyFirst p f es, x'.path = x.path ∧ x'.ident = x.ident := by
   induction es with
@@ -84,12 +101,12 @@ theorem assignField_spec {st st' : State} {a a' : Nat} {ident : Ident} {p : Path
     have hlen1 : 1 ≤ len := by
       unfold Field.chosenLen at hlen
       cases hl : e.field.length with
-      | none => simp [hl] at hlen; rw [← hlen]; exact autoLen_pos _
+      | none => rw [← hlen]; exact chosenLen_pos_of_none hl
       | some l => simp [hl] at hlen; rw [← hlen]; exact hinv.lenPos e he l hl
     have hwide : e.field.maxValue < 2 ^ len := by
       unfold Field.chosenLen at hlen
       cases hl : e.field.length with
-      | none => simp [hl] at hlen; rw [← hlen]; exact lt_two_pow_autoLen _
+      | none => rw [← hlen]; exact chosenLen_wide_of_none hl
       | some l => simp [hl] at hlen; rw [← hlen]; exact hinv.wide e he l hl
     -- common conclusion for a chosen start
     have key : ∀ start, a &&& rangeMask len start = 0 → start + len ≤ st.length →
